@@ -19,9 +19,7 @@ def gen_side(rng, window, pktsize, mode):
        size and window (with the 4-byte address family of layer 3 mode)"""
 
     hdr = 4 if mode == 'tun' else 0
-    # (a receiver only re-opens its window once less than half of it is
-    # left, so half a window is what a whole packet can count on)
-    biggest = min(window // 2, pktsize) - hdr
+    biggest = min(window, pktsize) - hdr
     pkts = []
 
     for _ in range(rng.weighted([(0, 1), (1, 2), (3, 3), (8, 3), (30, 1)])):
@@ -72,7 +70,7 @@ def valid_plan(plan):
             if len(d['gaps']) != len(d['pkts']) or len(d['pkts']) > 60:
                 return False
 
-            if any(not 1 <= n <= min(plan[w] // 2, plan[p]) - hdr
+            if any(not 1 <= n <= min(plan[w], plan[p]) - hdr
                    for n in d['pkts']):
                 return False
 
